@@ -5,6 +5,7 @@ import sys
 from mc import core, hist, lib
 
 ENGINE = "E1-sweep"
+TICK_EVERY = 5      # every 5th case of every unit is repeated with numpy integer ticks (int64 / int32)
 RULE = ("all well-formed sequences (<=2 notes over the full lattice, 3 (4 thorough) over a reduced one, with 0-2 signature "
         "events and trailing-rest variants, built through either representation) x every argument value: pad n in "
         "{0,d-1,d,d+1,2d}, cutoff all (m,r) with r<=m over {1,2,4,6}, scale k in 1..8, channel in {0,1,5,15}; "
